@@ -135,6 +135,7 @@ def fault_sites(deck):
                 sites.append(('lattice:no-option', ci))
                 sites.append(('lattice:too-few-ranges', ci))
                 sites.append(('lattice:extra-nontrivial-range', ci))
+                sites.append(('lattice:extra-range-with-degenerate-axes', ci))
                 for k in range(len(BAD_LATTICE_ARGS)):
                     sites.append(('lattice:malformed-option', (ci, k)))
             else:
@@ -257,6 +258,12 @@ def inject(deck, fclass, site):
             if ndim > 2:
                 return None
             new = ['%d,%s' % (cid, ','.join(ranges[:ndim] + ['0:2']))]
+        elif fclass == 'lattice:extra-range-with-degenerate-axes':
+            # the real axes get degenerate ranges, the non-trivial range sits
+            # on an axis the lattice does not have
+            if ndim > 2:
+                return None
+            new = ['%d,%s' % (cid, ','.join(['1:1'] * ndim + ['-1:1']))]
         else:
             new = [BAD_LATTICE_ARGS[bad_k].format(c=cid)]
         deck['lattice_opts'] = opts + new
@@ -499,6 +506,12 @@ def extra(tier, seed, stats):
         if ndim < 3:
             variants.append(('lattice:extra-nontrivial-range',
                              ['--lattice', '5,' + ','.join(good + ['0:2'])]))
+            variants.append(('lattice:extra-range-with-degenerate-axes',
+                             ['--lattice', '5,' + ','.join(['0:0'] * ndim
+                                                           + ['-1:1'])]))
+            if ndim == 1:
+                variants.append(('lattice:extra-range-with-degenerate-axes',
+                                 ['--lattice', '5,2:2,0:0,0:1']))
         for k, bad in enumerate(BAD_LATTICE_ARGS):
             variants.append(('lattice:malformed-option',
                              ['--lattice', bad.format(c=5)]))
